@@ -265,6 +265,14 @@ def run(ctx):
     if bad["ok"]:
         raise tlc.MachineryError("deviation switch WorkType=sig did not violate Design (vacuous model)")
     ctx.notes["switch_sig_violates"] = bad["invariant_violated"]
+    # non-integer outside value on integer data (units of 1/2): pairwise half-sum on the work
+    # array = BlockMean in units of 2^-u; a design that casts the outside value must fail
+    ctx.mc("MC_Downscale", "MC_Downscale_frac", workers=16)
+    bad = tlc.model_check("MC_Downscale", "MC_Downscale_frac_cast", workers=8)
+    if bad["ok"]:
+        raise tlc.MachineryError("deviation 'outside value cast to the data type' did not violate "
+                                 "DesignCastAgrees (vacuous model)")
+    ctx.notes["switch_cast_violates"] = bad["invariant_violated"]
     calls = []
     scope_calls(ctx, calls)
     ctx.notes["scope_calls"] = len(calls)
